@@ -34,6 +34,7 @@ def cases(tier: str, seed: int) -> List[Dict[str, Any]]:
     # directed: several roots, no project name
     for k in range(3 if tier == 'quick' else 12):
         out.append({'part': 'M', 'seed': seed, 'k': k, 'configs': 6 if tier == 'quick' else 12})
+    out.append({'part': 'D', 'configs': 6 if tier == 'quick' else 12})
     from vf.gen import corpus
     r = core.rng(seed, 'C18', 'corpus')
     for p in corpus.pick(r, 2 if tier == 'quick' else 10, max_bytes=200_000, min_files=2):
@@ -133,8 +134,35 @@ def _classify(first: str, detail: str, varied: List[str], extra: List[str]) -> s
     return f'C18:differs:{page}:{"+".join(varied) or "same-config"}'
 
 
+DIRECTED = {
+    'dpk/__init__.py': '"""Package re-exporting many names through a star import."""\nfrom ._impl import *\nfrom .Queue import qa\nfrom .queue import qb\n'
+                       '__all__ = ["alpha", "beta", "gamma", "Delta", "Epsilon", "zeta", "eta", "Theta", "qa", "qb"]\n',
+    'dpk/_impl.py': ''.join(f'def {n}():\n    """Doc of {n}. See L{{{m}}}."""\n' for n, m in
+                            [('alpha', 'beta'), ('beta', 'gamma'), ('gamma', 'Delta'), ('zeta', 'eta'), ('eta', 'Theta')]) +
+                    ''.join(f'class {n}:\n    """Doc of {n}."""\n    def m(self): pass\n' for n in ('Delta', 'Epsilon', 'Theta')),
+    'dpk/Queue.py': 'def qa():\n    """qa"""\nclass Same:\n    pass\n',
+    'dpk/queue.py': 'def qb():\n    """qb"""\nclass Same:\n    pass\n',
+    'dpk/users.py': 'from dpk._impl import *\nfrom dpk import *\nclass U(Delta, Theta):\n    """See L{alpha} and L{Epsilon}."""\n    x = {1, 2, 3}\n    y = frozenset(["a", "b"])\n',
+    'other.py': 'from dpk import Delta\nclass O(Delta):\n    pass\n',
+}
+
+
 def run_case(case: Dict[str, Any]) -> core.Res:
     res = core.Res()
+    if case['part'] == 'D':
+        base = Path(tempfile.mkdtemp(prefix='vf18d-'))
+        try:
+            for rel, src in DIRECTED.items():
+                p = base / rel
+                p.parent.mkdir(parents=True, exist_ok=True)
+                p.write_text(src)
+            res.c('multi_root_projects')
+            res.c('guessed_name_projects')
+            _judge(res, 'directed', [str(base / 'dpk'), str(base / 'other.py')], [], case['configs'], {'project': 'directed', 'sources': DIRECTED}, epoch=True)
+        finally:
+            shutil.rmtree(base, ignore_errors=True)
+        res.sample({'directed': sorted(DIRECTED)})
+        return res
     if case['part'] == 'P':
         label = Path(case['path']).name
         _judge(res, label, [case['path']], ['--project-name=proj'], case['configs'], {'path': case['path']}, epoch=True)
